@@ -20,6 +20,13 @@
 //   - a buffer-full auto-sync inside Append is treated as a plain write (NOT durable): this only
 //     enlarges the set of crash images (a durable write can always be "lost" by choosing an earlier
 //     crash point of the same file), it never hides one.
+//
+// PHYSICAL level (NewPhysicalRecorder; store directory on a disk file system): none of the above is
+// assumed. After every call the kernel is asked, per physical chunk file, whether the file still has
+// dirty or under-writeback pages (cachestat(2)): a file that was written and has none has been
+// fsynced (or written back), its content at that moment is its durable content; a file with dirty
+// pages keeps its writes pending whatever the appendable API was told. This sees a chunk that is
+// rotated out without fsync, a Sync() that reaches only some chunk, a missing fsync after a flush.
 package c03
 
 import (
@@ -30,6 +37,8 @@ import (
 	"path/filepath"
 	"sort"
 	"sync"
+
+	"golang.org/x/sys/unix"
 
 	"github.com/codenotary/immudb/embedded/appendable"
 	"github.com/codenotary/immudb/embedded/appendable/multiapp"
@@ -62,10 +71,51 @@ type Recorder struct {
 	Events  []Event
 	shadow  map[string][]byte // OS view of every file we have seen (relative path -> content)
 	enabled bool
+	// physical level: durability is observed (cachestat), not derived from the calls
+	physical bool
+	dirty    map[string]bool // files with writes not yet seen clean
 }
 
 func NewRecorder(root string, synced bool) *Recorder {
 	return &Recorder{root: root, synced: synced, shadow: map[string][]byte{}, enabled: true}
+}
+
+// fileClean: no dirty and no under-writeback page (cachestat); ok=false when the kernel cannot tell.
+func fileClean(path string) (clean bool, ok bool) {
+	f, err := os.Open(path)
+	if err != nil {
+		return false, false
+	}
+	defer f.Close()
+	var cs unix.Cachestat_t
+	if err := unix.Cachestat(uint(f.Fd()), &unix.CachestatRange{Off: 0, Len: 0}, &cs, 0); err != nil {
+		return false, false
+	}
+	return cs.Dirty == 0 && cs.Writeback == 0, true
+}
+
+// PhysicalAvailable: the file system under dir reports dirty pages (a disk file system with
+// cachestat(2); not tmpfs).
+func PhysicalAvailable(dir string) bool {
+	f, err := os.CreateTemp(dir, "c03probe")
+	if err != nil {
+		return false
+	}
+	defer os.Remove(f.Name())
+	defer f.Close()
+	f.Write(make([]byte, 4096))
+	c1, ok1 := fileClean(f.Name())
+	f.Sync()
+	c2, ok2 := fileClean(f.Name())
+	return ok1 && ok2 && !c1 && c2
+}
+
+// NewPhysicalRecorder: durability per physical chunk file is OBSERVED after every call.
+func NewPhysicalRecorder(root string) *Recorder {
+	r := NewRecorder(root, true)
+	r.physical = true
+	r.dirty = map[string]bool{}
+	return r
 }
 
 // Preload makes the recorder aware of files that exist before the store is opened (second run on a
@@ -149,10 +199,19 @@ func (r *Recorder) observe(log string, ev *Event) {
 			ev.Created = append(ev.Created, Write{File: rel, Off: 0, Data: clone(cur[:init])})
 			old = cur[:init]
 		}
-		if !bytes.Equal(old, cur) {
+		changed := !bytes.Equal(old, cur)
+		if changed {
 			ev.Writes = append(ev.Writes, diffWrites(rel, old, cur)...)
 		}
 		r.shadow[rel] = cur
+		if r.physical && (changed || r.dirty[rel]) {
+			if clean, ok := fileClean(filepath.Join(dir, n)); ok && clean {
+				ev.Synced = append(ev.Synced, rel) // observed: nothing of this file is left un-fsynced
+				delete(r.dirty, rel)
+			} else {
+				r.dirty[rel] = true
+			}
+		}
 	}
 	for rel := range r.shadow {
 		if filepath.Dir(rel) == log && !seen[rel] {
@@ -266,6 +325,12 @@ func (t *tracedApp) op(kind string, off int64, n int, f func() error) error {
 	ev := Event{Kind: kind, Log: t.log, Off: off, Len: n}
 	t.rec.observe(t.log, &ev)
 	after := t.curFile()
+	if t.rec.physical {
+		kind2 := kind
+		_ = kind2
+		t.rec.Events = append(t.rec.Events, ev)
+		return err
+	}
 	switch kind {
 	case "sync":
 		if err == nil {
@@ -312,7 +377,7 @@ func (t *tracedApp) Append(bs []byte) (off int64, n int, err error) {
 		ev := Event{Kind: "append", Log: t.log, Off: off, Len: len(bs)}
 		t.rec.observe(t.log, &ev)
 		after := t.curFile()
-		if before != after && t.rec.synced {
+		if before != after && t.rec.synced && !t.rec.physical {
 			// rotation: every chunk that was left has been flushed and fsynced
 			for _, w := range ev.Writes {
 				if w.File != after && !contains(ev.Synced, w.File) {
